@@ -8,6 +8,7 @@ import (
 	"sort"
 	"strconv"
 	"strings"
+	"time"
 
 	"github.com/pinealctx/neptune/cache"
 	"github.com/pinealctx/neptune/cache/tiny"
@@ -315,6 +316,29 @@ func (a semapAPI) acquire(keys []key, write, multi bool, tok map[string]*semap.W
 	}
 	tok[keys[0].ty+":"+keys[0].text] = w
 }
+
+// acquireDone: the same call with a context that is already cancelled ("acqx") or whose deadline has passed ("acqd")
+func (a semapAPI) acquireDone(mode string, keys []key, write bool, tok map[string]*semap.Weighted) string {
+	ctx, cancel := context.WithCancel(context.Background())
+	if mode == "acqd" {
+		cancel()
+		ctx, cancel = context.WithDeadline(context.Background(), time.Unix(1, 0))
+	}
+	cancel()
+	var w *semap.Weighted
+	var err error
+	if write {
+		w, err = a.m.AcquireWrite(ctx, keys[0].v)
+	} else {
+		w, err = a.m.AcquireRead(ctx, keys[0].v)
+	}
+	if err != nil {
+		return "err"
+	}
+	tok[keys[0].ty+":"+keys[0].text] = w
+	return "ret"
+}
+
 func (a semapAPI) release(keys []key, write, multi bool, tok map[string]*semap.Weighted) {
 	w := tok[keys[0].ty+":"+keys[0].text]
 	if write {
@@ -475,6 +499,45 @@ func (r *runner) locksOp(f []string) string {
 		return "skipped"
 	}
 	ctx := fmt.Sprintf("%s on %s, %d shards (xhash=%v); holders %v", strings.Join(f, " "), ls.name, ls.n, ls.xhash, ls.holds)
+	if f[0] == "acqx" || f[0] == "acqd" {
+		// acquire with a context that is already done: a free key is granted all the same, a held key is refused at once
+		// (nothing queues) — by the sharded map exactly as by the single one
+		sw, okW := ls.wide.(semapAPI)
+		sr, okR := ls.ref.(semapAPI)
+		if !okW || !okR || ls.wait != nil {
+			return "bad-op"
+		}
+		for _, h := range ls.holds {
+			if h.t == t && dup[h.key] {
+				return "bad-op"
+			}
+		}
+		conflict := !ls.free(names[0], write)
+		tw := ls.s.Go("wide", func() string { return sw.acquireDone(f[0], keys, write, ls.tok(ls.tokW, t)) })
+		tr := ls.s.Go("ref", func() string { return sr.acquireDone(f[0], keys, write, ls.tok(ls.tokR, t)) })
+		if err := ls.s.Settle(); err != nil {
+			fmt.Fprintln(os.Stderr, "c17: no quiescent state in a lock script:", err)
+			os.Exit(2) // harness error, never a verdict
+		}
+		a, b := statusOf(tw), statusOf(tr)
+		switch {
+		case strings.HasPrefix(a, "panic"):
+			r.lockHit("C17:"+ls.name+":panics", a+": "+ctx)
+			return "panic"
+		case a != b:
+			r.lockHit("C17:"+ls.name+":differs-from-unsharded", fmt.Sprintf("context already done: group: %s, single map: %s; %s", a, b, ctx))
+		case a == "ret" && conflict:
+			r.lockHit("C17:"+ls.name+":exclusion-lost", "the call returned although the key is held: "+ctx)
+		case a == "err" && !conflict:
+			r.lockHit("C17:"+ls.name+":done-context-refused-on-free-key", ctx)
+		case a == "parked":
+			r.lockHit("C17:"+ls.name+":done-context-call-blocks", ctx)
+		}
+		if a == "ret" {
+			ls.holds = append(ls.holds, hold{t, names[0], write, false})
+		}
+		return a
+	}
 	if f[0] == "acq" {
 		if ls.wait != nil {
 			return "bad-op"
@@ -629,6 +692,8 @@ func statusOf(t *sched.Task) string {
 		return "parked"
 	case strings.HasPrefix(st, "ret:panic"):
 		return "panic" + strings.TrimPrefix(st, "ret:panic")
+	case st == "ret:err":
+		return "err"
 	}
 	return "ret"
 }
